@@ -187,6 +187,11 @@ func loadWorld(repo, verifDir string) (*world, error) {
 			w.fieldInv["G:"+strings.TrimPrefix(fi.Ghost, "ghost_")] = &FieldInvRef{fi, cf.PkgPath}
 		}
 	}
+	for _, cf := range w.files {
+		for _, k := range cf.Immutable {
+			w.immutable[k] = true
+		}
+	}
 	w.itfKeys = []string{"G:tbl", "G:expiresAt", "G:refreshableAt", "G:state"}
 	return w, nil
 }
